@@ -208,7 +208,7 @@ fn run_e1(rep: &Report) -> i32 {
                 counters: false,
                 long_templates: true,
             },
-            "per model: lock-step product of all 15 low-level representations (nNFA dense depth 0/1/3, cNFA dense depth 0/1/2 x byte classes, DFA start kind U/A/B x byte classes) advanced through next_state on all 256 bytes until the joint reachable set is closed, unanchored and anchored; in every joint state the search-observable behaviour must agree (standard: whole match list; leftmost: the match the documented loop has recorded); no SPEC involved. Then all six search APIs on all 24 searchers (incl. top-level automatic/explicit kinds) must return identical results on witnesses and layer 2 x spans x anchoring",
+            "per model: lock-step product of all low-level representations (nNFA dense depth 0/1/3, cNFA dense depth 0/1/2 x byte classes, DFA start kind U/A/B x byte classes, a cNFA and a DFA built by their own builders, and for default configurations the plain constructors NFA::new / DFA::new) advanced through next_state on all 256 bytes until the joint reachable set is closed, unanchored and anchored; in every joint state the search-observable behaviour must agree (standard: whole match list; leftmost: the match the documented loop has recorded); no SPEC involved. Then all six search APIs on all 24 searchers (incl. top-level automatic/explicit kinds) must return identical results on witnesses and layer 2 x spans x anchoring",
             "2, 7 (C04)",
             vec!["compares only search-observable behaviour (match lists, recorded match, API results); state numbering, is_special/is_start and the moment a representation enters the dead state are deliberately not compared"],
         ),
